@@ -242,8 +242,9 @@ Definition uv_read (E : env) (s : st) : st * list event :=
 
 Definition has (events bit : Z) : bool := negb (Z.land events bit =? 0).
 
-(* uv__stream_io (connect_req == NULL, write queue empty so the write half
-   does nothing) *)
+(* uv__stream_io (connect_req == NULL; the write half - uv__write,
+   uv__write_callbacks, uv__drain on POLLOUT|POLLERR|POLLHUP - touches no read-side
+   state and is not modelled; write callbacks are assumed not to call the read API) *)
 Definition stream_io (E : env) (s : st) (events : Z) : st * list event :=
   let '(s1, e1) :=
     if has events (Z.lor POLLIN (Z.lor POLLERR POLLHUP)) then uv_read E s else (s, []) in
